@@ -34,6 +34,15 @@ package main
 //	JSONQuote(s)          []byte          plain JSON string literal of s (minimal escaping)
 //	DeepEqualValues(a,b)  bool            reflect-level equality: nil≠empty, pointers by content, floats by bits, exact dynamic types
 //	DeepCopyValue(v)      reflect.Value   independent deep copy (no sharing of maps, slices, pointers)
+//	GenValueFor(r, t, depth) reflect.Value random ADDRESSABLE value of t.GoType() built by reflection (never through JSON): nil AND
+//	                                      empty non-nil slices/maps, spare capacity, **T → nil *T, *any → nil interface, `any` holding
+//	                                      typed-nil / empty / nested (≤ min(depth,3)) containers, integers at the boundaries of their
+//	                                      width, finite floats of every magnitude, strings needing escapes, ~2% invalid UTF-8 strings
+//	                                      and ~1% invalid UTF-8 map keys (Marshal must fail on those)
+//	GenInvalidUTF8(r)     string          a string that is NOT valid UTF-8
+//
+// ValueWire prints a float64 with the library's own JSON formatting (jsonwire.AppendFloat), so that the
+// model's literal of a float equals byte for byte what json.Marshal writes (C04L3 compares trees textually).
 
 import (
 	"bytes"
@@ -50,6 +59,7 @@ import (
 	"sync"
 	"unicode/utf8"
 
+	"github.com/go-json-experiment/json/internal/jsonwire"
 	"github.com/go-json-experiment/json/jsontext"
 )
 
@@ -334,8 +344,9 @@ func dynTypeDesc(rt reflect.Type) *TypeDesc {
 }
 
 // ValueWire renders the Go value v (of type t.GoType()) in the oracle's value tokens.
-// Map entries are sorted by key bytes; float64 is printed as the hex of its shortest literal
-// (strconv 'g', -1); a dynamic type outside the model inside an `any` is printed as `?<type>`
+// Map entries are sorted by key bytes; float64 is printed as the hex of the literal that the library
+// itself writes (jsonwire.AppendFloat(nil, x, 64): shortest digits, 'e' form below 1e-6 and from 1e21);
+// a dynamic type outside the model inside an `any` is printed as `?<type>`
 // (which the oracle rejects).
 func ValueWire(v reflect.Value, t *TypeDesc) string {
 	var sb strings.Builder
@@ -362,7 +373,7 @@ func writeValueWire(sb *strings.Builder, v reflect.Value, t *TypeDesc) {
 	case TKUint:
 		tok("u" + strconv.FormatUint(v.Uint(), 10))
 	case TKFloat:
-		tok("F" + hx([]byte(strconv.FormatFloat(v.Float(), 'g', -1, 64))))
+		tok("F" + hx(jsonwire.AppendFloat(nil, v.Float(), 64)))
 	case TKString:
 		tok("s" + hx([]byte(v.String())))
 	case TKSlice:
@@ -1629,4 +1640,322 @@ func (g *jsonGen) array(elem *TypeDesc, n int, depth int) {
 	}
 	g.ws()
 	g.lit("]")
+}
+
+// ---------------------------------------------------------------------------------------------
+// Go values built by reflection (what unmarshaling can never produce included)
+
+type valGen struct {
+	r      *rand.Rand
+	budget int // remaining nodes; containers shrink when it runs out
+}
+
+// GenValueFor returns a random ADDRESSABLE value of t.GoType(), built by reflection and never through
+// JSON, so that it reaches the states unmarshaling cannot produce: nil as well as empty non-nil slices
+// and maps (≈ 25% / 20% of the slices and maps each), slices with spare capacity, pointers to nil
+// pointers, pointers to nil interfaces, `any` holding []any(nil) / map[string]any(nil) as well as the
+// empty non-nil ones, nested `any` values (nesting ≤ min(depth,3)), integers at the boundaries of their
+// width (min, max, 0, ±1, neighbours), finite floats of every magnitude (-0, subnormals, MaxFloat64,
+// integers, the 1e21 / 1e-6 format switch points), strings that are empty / ASCII / need escapes
+// (`"`, `\`, controls, U+2028) / multi-byte, ~2% strings that are NOT valid UTF-8 (Marshal must fail),
+// map keys from gtKeyPool plus random valid strings and ~1% invalid UTF-8 keys; slices and maps hold
+// 0..4 elements; at most ~48 nodes.
+func GenValueFor(r *rand.Rand, t *TypeDesc, depth int) reflect.Value {
+	if depth > 3 {
+		depth = 3
+	}
+	if depth < 0 {
+		depth = 0
+	}
+	g := &valGen{r: r, budget: 48}
+	v := reflect.New(t.GoType()).Elem()
+	g.fill(v, t, depth)
+	return v
+}
+
+// GenInvalidUTF8 returns a string that is not valid UTF-8 (lone continuation or lead bytes, truncated
+// sequences, overlong forms, encoded surrogates, bytes ≥ 0xf8), possibly between valid text.
+func GenInvalidUTF8(r *rand.Rand) string {
+	bad := []string{"\xff", "\x80", "\xc3", "\xe2\x82", "\xf0\x9f\x98", "\xc0\xaf", "\xed\xa0\x80", "\xf8\x88\x80\x80\x80", "\xfe", "\xf4\x90\x80\x80", "\xe0\x80\x80", "\xc3\x28"}
+	s := bad[r.IntN(len(bad))]
+	if r.IntN(2) == 0 {
+		s = gtStrings[r.IntN(len(gtStrings))] + s
+	}
+	if r.IntN(2) == 0 {
+		s += gtStrings[r.IntN(len(gtStrings))]
+	}
+	if utf8.ValidString(s) {
+		fail("GenInvalidUTF8 produced valid UTF-8 %q", s)
+	}
+	return s
+}
+
+func (g *valGen) intOf(bits int) int64 {
+	min := int64(-1) << (bits - 1)
+	max := -(min + 1)
+	switch x := g.r.IntN(100); {
+	case x < 10:
+		return min
+	case x < 20:
+		return max
+	case x < 27:
+		return 0
+	case x < 32:
+		return 1
+	case x < 37:
+		return -1
+	case x < 41:
+		return min + 1
+	case x < 45:
+		return max - 1
+	case x < 65:
+		return int64(g.r.IntN(201)) - 100 // fits int8 too (-100..100)
+	case x < 75:
+		// a boundary of a narrower width, or a power of ten, clipped into range
+		n := BoundaryInt64(g.r)
+		if n > max || n < min {
+			n >>= uint(64 - bits)
+		}
+		return n
+	default:
+		return int64(g.r.Uint64()) >> uint(64-bits) // uniform over the width (arithmetic shift keeps the sign)
+	}
+}
+
+func (g *valGen) uintOf(bits int) uint64 {
+	max := ^uint64(0) >> uint(64-bits)
+	switch x := g.r.IntN(100); {
+	case x < 15:
+		return max
+	case x < 25:
+		return 0
+	case x < 32:
+		return 1
+	case x < 38:
+		return max - 1
+	case x < 44:
+		return max>>1 + uint64(g.r.IntN(2)) // the signed boundary of the same width, and one above
+	case x < 64:
+		return uint64(g.r.IntN(101))
+	case x < 74:
+		return boundaryUint64(g.r) & max
+	default:
+		return g.r.Uint64() >> uint(64-bits)
+	}
+}
+
+var gvFloats = []float64{1e21, 1e21 - 131072, 1e21 + 131072, 1e-6, 1e-7, 9.999999999999999e-7, 1e20, 123456789e13, 5e-324, -5e-324, 1.7976931348623157e308,
+	2.2250738585072014e-308, 0, 0.1, 0.2 + 0.1, 1 << 53, 1<<53 + 2, -(1 << 63), 1 << 64, 100, 1e15, 1e16, 1e17, 0.000001234, 4.35, 1.0000000000000002}
+
+func (g *valGen) float() float64 {
+	switch x := g.r.IntN(100); {
+	case x < 8:
+		return math.Copysign(0, -1)
+	case x < 14:
+		return 0
+	case x < 34:
+		f := gvFloats[g.r.IntN(len(gvFloats))]
+		if g.r.IntN(3) == 0 {
+			f = -f
+		}
+		return f
+	case x < 42: // neighbours of the two format switch points
+		base := []float64{1e21, 1e-6}[g.r.IntN(2)]
+		for n := g.r.IntN(4); n > 0; n-- {
+			if g.r.IntN(2) == 0 {
+				base = math.Nextafter(base, math.Inf(1))
+			} else {
+				base = math.Nextafter(base, 0)
+			}
+		}
+		return base
+	default:
+		return FiniteFloat(g.r, 64)
+	}
+}
+
+var gvStrings = []string{"", "a", "hello", "\"", "\\", "a\"b\\c", "\n", "\x00", "\x1f\x7f", " ", "x  y", "é", "é✓", "日本語", "😀", "\U0010ffff", "�",
+	"<&>", "/", "null", "0", "q\"\\\n", "\u2028", "a\u2028\u2029b", "\t\r\b\f"}
+
+func (g *valGen) str() string {
+	switch x := g.r.IntN(100); {
+	case x < 2:
+		return GenInvalidUTF8(g.r)
+	case x < 12:
+		return ""
+	case x < 50:
+		return gvStrings[g.r.IntN(len(gvStrings))]
+	case x < 65:
+		return gtStrings[g.r.IntN(len(gtStrings))]
+	default:
+		s := ValidString(g.r)
+		if len(s) > 40 && g.r.IntN(4) != 0 { // keep most texts short
+			s = strings.ToValidUTF8(s[:40], "")
+		}
+		return s
+	}
+}
+
+// keys draws n distinct map keys: mostly gtKeyPool (so that the bytewise member order matters:
+// "", "a", "b", "c", "k1", `q"\` + LF, "é✓"), random valid strings, ~1% invalid UTF-8.
+func (g *valGen) keys(n int) []string {
+	seen := map[string]bool{}
+	var out []string
+	for tries := 0; len(out) < n && tries < 4*n+8; tries++ {
+		var k string
+		switch x := g.r.IntN(100); {
+		case x < 1:
+			k = GenInvalidUTF8(g.r)
+		case x < 66:
+			k = gtKeyPool[g.r.IntN(len(gtKeyPool))]
+		case x < 80:
+			k = gvStrings[g.r.IntN(len(gvStrings))]
+		case x < 90:
+			k = []string{"b", "a", "", "é", "B", "aa", "a\x00", "a ", "\x7f", "~", "Z", "z", "\U0010ffff", "\uffff", "é✓a"}[g.r.IntN(15)]
+		default:
+			k = ValidString(g.r)
+			if len(k) > 24 {
+				k = strings.ToValidUTF8(k[:24], "")
+			}
+		}
+		if !seen[k] {
+			seen[k] = true
+			out = append(out, k)
+		}
+	}
+	return out
+}
+
+// size draws the element count of a non-empty slice or map (1..4; 1..2 once the budget is spent).
+func (g *valGen) size() int {
+	if g.budget <= 0 {
+		return 1 + g.r.IntN(2)
+	}
+	return 1 + g.r.IntN(4)
+}
+
+func (g *valGen) fill(v reflect.Value, t *TypeDesc, depth int) {
+	g.budget--
+	switch t.Kind {
+	case TKBool:
+		v.SetBool(g.r.IntN(2) == 0)
+	case TKInt:
+		v.SetInt(g.intOf(t.Bits))
+	case TKUint:
+		v.SetUint(g.uintOf(t.Bits))
+	case TKFloat:
+		v.SetFloat(g.float())
+	case TKString:
+		v.SetString(g.str())
+	case TKSlice:
+		switch x := g.r.IntN(100); {
+		case x < 25: // nil
+		case x < 45: // empty, not nil: with and without capacity
+			v.Set(reflect.MakeSlice(v.Type(), 0, []int{0, 0, 1, 5}[g.r.IntN(4)]))
+		default:
+			n := g.size()
+			c := n
+			if g.r.IntN(100) < 30 {
+				c += 1 + g.r.IntN(4) // spare capacity
+			}
+			s := reflect.MakeSlice(v.Type(), n, c)
+			for i := 0; i < n; i++ {
+				g.fill(s.Index(i), t.Elem, depth)
+			}
+			if c > n && g.r.IntN(2) == 0 { // stale non-zero data beyond the length
+				full := s.Slice(0, c)
+				save := g.budget
+				for i := n; i < c; i++ {
+					g.fill(full.Index(i), t.Elem, 0)
+				}
+				g.budget = save
+			}
+			v.Set(s)
+		}
+	case TKArray:
+		for i := 0; i < v.Len(); i++ {
+			g.fill(v.Index(i), t.Elem, depth)
+		}
+	case TKMap:
+		switch x := g.r.IntN(100); {
+		case x < 25: // nil
+		case x < 45: // empty, not nil
+			v.Set(reflect.MakeMapWithSize(v.Type(), []int{0, 0, 8}[g.r.IntN(3)]))
+		default:
+			m := reflect.MakeMap(v.Type())
+			for _, k := range g.keys(g.size()) {
+				e := reflect.New(v.Type().Elem()).Elem()
+				g.fill(e, t.Elem, depth)
+				m.SetMapIndex(reflect.ValueOf(k), e)
+			}
+			v.Set(m)
+		}
+	case TKPtr:
+		if g.r.IntN(100) < 25 {
+			return // nil
+		}
+		p := reflect.New(v.Type().Elem())
+		g.budget++ // a pointer is not a node of its own
+		g.fill(p.Elem(), t.Elem, depth)
+		v.Set(p)
+	case TKStruct:
+		for i, f := range t.Fields {
+			g.fill(v.Field(i), f.Type, depth)
+		}
+	case TKAny:
+		if a := g.anyVal(depth); a.IsValid() {
+			v.Set(a)
+		}
+	}
+}
+
+// anyVal draws the content of an interface: the invalid Value for a nil interface, else a value of one
+// of the five modelled dynamic types; []any and map[string]any come nil, empty and filled.
+func (g *valGen) anyVal(depth int) reflect.Value {
+	x := g.r.IntN(100)
+	if (depth <= 0 || g.budget <= 0) && x >= 68 {
+		// no further nesting: scalars, nil and the four empty containers only
+		x = g.r.IntN(68)
+	}
+	switch {
+	case x < 14:
+		return reflect.Value{}
+	case x < 22:
+		return reflect.ValueOf(g.r.IntN(2) == 0)
+	case x < 34:
+		return reflect.ValueOf(g.float())
+	case x < 46:
+		return reflect.ValueOf(g.str())
+	case x < 53:
+		return reflect.ValueOf([]any(nil))
+	case x < 58:
+		return reflect.ValueOf(make([]any, 0, g.r.IntN(3)))
+	case x < 64:
+		return reflect.ValueOf(map[string]any(nil))
+	case x < 68:
+		return reflect.ValueOf(map[string]any{})
+	case x < 85:
+		n := g.size()
+		c := n + g.r.IntN(2)*g.r.IntN(3)
+		s := make([]any, n, c)
+		sv := reflect.ValueOf(s)
+		for i := 0; i < n; i++ {
+			g.budget--
+			if a := g.anyVal(depth - 1); a.IsValid() {
+				sv.Index(i).Set(a)
+			}
+		}
+		return sv
+	default:
+		m := map[string]any{}
+		for _, k := range g.keys(g.size()) {
+			g.budget--
+			if a := g.anyVal(depth - 1); a.IsValid() {
+				m[k] = a.Interface()
+			} else {
+				m[k] = nil
+			}
+		}
+		return reflect.ValueOf(m)
+	}
 }
